@@ -483,6 +483,8 @@ structure TB where
   ended : Option String := none
   /-- the shell is leaving (`exit`, or a failed special built-in) -/
   quit : Bool := false
+  /-- the `interactive` option is on (`tbi` cases): the `trap` built-in overrides "ignored on entry" -/
+  inter : Bool := false
 
 /-- the number that stands for an action text: `probe N` ↦ N, `probe N; kill -s USR2 $$` ↦ 1000 + N,
     `probe N; trap "probe N+500" SIG; kill -s SIG $$` ↦ (1000 + SIG) * 1000 + N -/
@@ -570,7 +572,7 @@ def tbExitTrap (s : TB) : TB :=
   | none => s
 
 def tbTrap (s : TB) (k : Nat) (print : Bool) (operands : List String) : TB :=
-  let r := trapMain tbCmdOf s.st k false print operands
+  let r := trapMain tbCmdOf s.st k s.inter print operands
   { s with st := r.st, out := (r.out.map showTrapLine).reverse ++ s.out, exit := r.status,
            quit := r.abort }
 
@@ -606,7 +608,7 @@ def tbList (k : Nat) (s : TB) (stmts : List (List String)) : Option TB :=
 
 /-- the body of a subshell: the traps are reset for the child, its output is collected -/
 def tbChild (k : Nat) (s : TB) (ii : Bool) (inner : List (List String)) : Option TB :=
-  (tbList k { st := enterSubshell s.st ii false, exit := s.exit } inner).map tbExitTrap
+  (tbList k { st := enterSubshell s.st ii false, exit := s.exit, inter := s.inter } inner).map tbExitTrap
 
 def splitInner (ws : List String) : List (List String) :=
   ((" ".intercalate ws).splitOn ",").map words
@@ -659,8 +661,12 @@ def tbStmt (k : Nat) (s : TB) (ws : List String) : Option TB :=
 
 def tbLineRun (line : String) : String :=
   let parts := ((splitTrim line ";").filter (· ≠ "")).map words
+  -- `tbi …` = the same script in a shell started with the `interactive` option on (and `monitor` off):
+  -- the internal dispositions of the terminators are installed at start-up
+  let inter := (parts.head?.bind List.head?) == some "tbi"
   let parts := match parts with
     | ("tb" :: r) :: rest => if r.isEmpty then rest else r :: rest
+    | ("tbi" :: r) :: rest => if r.isEmpty then rest else r :: rest
     | p => p
   let (ign, parts) := match parts with
     | ("ign" :: sigs) :: rest => (sigs.filterMap parseAnySig, rest)
@@ -680,7 +686,8 @@ def tbLineRun (line : String) : String :=
   let afterW := (parts.dropWhile fun ws => ws.head? ≠ some "W").drop 1
   let wOK := !(parts.any fun ws => ws.head? = some "W")
     || (!(afterW.any isChild) && !(parts.any fun ws => ws.contains "CHLD" || ws.contains "102"))
-  match (if wOK then go { st := State.init init } parts 0 else none) with
+  let st0 := if inter then enableTerminators (State.init init) else State.init init
+  match (if wOK then go { st := st0, inter := inter } parts 0 else none) with
   | none => "bad-case\t-"
   | some s =>
     let s := tbExitTrap s
@@ -698,10 +705,11 @@ def showCall (c : Call) : String :=
   match c.prim with
   | .mask add s => s!"M{if add then "+" else "-"}{condName s}{if c.ok then "" else "!"}"
   | .action s d => if c.ok then s!"A:{condName s}:{showDisp d}>{showDisp c.old}" else s!"A:{condName s}:{showDisp d}!"
+  | .get s => if c.ok then s!"G:{condName s}>{showDisp c.old}" else s!"G:{condName s}!"
 
 def showOpResult (st : FState) (op : Op) : String :=
   match op, resultF st op with
-  | .peek c, _ => showTS (peekStateF st c).2
+  | .peek c, _ => ((peekStateF st c).2.map showTS).getD "errno"
   | _, .none => "-"
   | _, .setAction none => "ok"
   | _, .setAction (some .systemError) => "errno"
@@ -766,6 +774,7 @@ def runLine (line : String) : String :=
   | "script" :: ws => scriptLine ws
   | "multi" :: ws => multiLine ws
   | "tb" :: _ => tbLineRun line
+  | "tbi" :: _ => tbLineRun line
   | ["conds"] => condsLine
   | "sc" :: _ => scLine line
   | _ => opsLine line
